@@ -14,7 +14,7 @@ import more_itertools
 from cirbo.core.boolean_function import RawTruthTableModel
 from cirbo.core.circuit import Circuit
 from cirbo.core.circuit.exceptions import CircuitValidationError
-from cirbo.core.circuit.gate import Label
+from cirbo.core.circuit.gate import Gate, Label, NOT
 from cirbo.core.circuit.operators import GateState, Undefined
 from cirbo.core.circuit.validation import check_circuit_has_no_cycles
 from cirbo.core.logic import DontCare
@@ -504,11 +504,18 @@ def minimize_subcircuits(
         if not filtered_outputs:
             logger.debug("All outputs have trivial input patterns")
             for output in subcircuit.outputs:
-                new_output = (
-                    outputs_mapping[output]
-                    if output in outputs_mapping
-                    else outputs_negation_mapping[output]
-                )
+                if output not in outputs_mapping:
+                    # the output is the negation of a cut input: it becomes
+                    # a NOT gate of that input and keeps its label
+                    negated_input: Label = outputs_negation_mapping[output]
+                    for operand in circuit.get_gate(output).operands:
+                        circuit._remove_user(operand, output)
+                    circuit._gates[output] = Gate(output, NOT, (negated_input,))
+                    circuit._add_user(negated_input, output)
+                    node_states[output] = _NodeState.REMOVED
+                    node_states[negated_input] = _NodeState.REMOVED
+                    continue
+                new_output = outputs_mapping[output]
                 for user in list(circuit.get_gate_users(output)):
                     new_operands = tuple(
                         new_output if operand == output else operand
